@@ -60,11 +60,19 @@ def cases(ctx, rng):
            ("ensure", "val:P:1"), ("gou", "replace", 0, "val:P:1"), ("roget",), ("rotouch",)]
     direct = {"plain": [("pget",), ("ptouch",), ("pset", "V", 1), ("pput", "V", 1)],
               "sharded": [("sget",), ("stouch",), ("sset", "V", 1), ("sput", "V", 1)]}
-    for name in names(ctx, rng):
+    # (name, where a DIRECTORY carrying the key's name sits: None, or which of the key's candidate places)
+    variants = [(name, None) for name in names(ctx, rng)] + [(name, pl) for name in ("ok", "a.b") for pl in (0, 1)]
+    for name, dirplace in variants:
         for w, rs in fronts:
+            if dirplace is not None and (w is None or (w[0] == "plain" and dirplace == 1)):
+                continue
             allops = list(ops) + (direct[w[0]] if w else [])
             for opk in allops:
                 L = G.header(w, rs, "none")
+                if dirplace is not None:
+                    # something that is not a cached file carries the key's name: whatever the call answers,
+                    # it touches nothing below or beside its own places
+                    L.append("mkdir " + G.key_path(w, "w", (name, 7, 9), dirplace))
                 L.append("mkdir x")
                 L.append(G.plant("x/sentinel", "S"))
                 L.append(G.plant("top_sentinel", "S"))
@@ -85,7 +93,7 @@ def cases(ctx, rng):
                 else:
                     L.append(G.op(0, opk[0], key, *opk[1:]))
                 L.append("snap")
-                out.append(({"name": name, "w": w, "op": opk[0]}, L))
+                out.append(({"name": name, "w": w, "op": opk[0], "dirplace": dirplace}, L))
     return out
 
 
